@@ -272,8 +272,12 @@ impl<C: Context> Writable<C> for DataFrag {
     writer.write_value(&self.fragments_in_submessage)?;
     writer.write_value(&self.fragment_size)?;
     writer.write_value(&self.data_size)?;
-    if self.inline_qos.is_some() && !self.inline_qos.as_ref().unwrap().parameters.is_empty() {
-      writer.write_value(&self.inline_qos)?;
+    // Note: write the ParameterList itself. Writing the Option would put a
+    // presence octet in front of it, which is not part of DATAFRAG.
+    if let Some(inline_qos) = self.inline_qos.as_ref() {
+      if !inline_qos.parameters.is_empty() {
+        writer.write_value(inline_qos)?;
+      }
     }
     writer.write_bytes(&self.serialized_payload)?;
     Ok(())
